@@ -6,6 +6,7 @@ import ChaiVerif.Drv.Json
 import ChaiVerif.Drv.Prelude
 import ChaiVerif.Drv.Env
 import ChaiVerif.Drv.Dispatch
+import ChaiVerif.Drv.Chai
 open ChaiVerif.Drv
 
 def main (args : List String) : IO UInt32 := do
@@ -18,5 +19,7 @@ def main (args : List String) : IO UInt32 := do
   | ["prelude"] => lineLoop preludeLine; return 0
   | ["state"] => lineLoop stateLine; return 0
   | ["dispatch"] => lineLoop dispLine; return 0
+  | ["chai"] => lineLoop (fun l => let r := (chaiLine l).replace "\n" " "; "model=" ++ r ++ "\tspec=" ++ r); return 0
+  | ["chai-print"] => lineLoop (fun l => (chaiLine ("print " ++ l)).replace "\n" " "); return 0
   | ["arith-abi"] => (abiLines.forM IO.println); return 0
   | _ => IO.eprintln "usage: chaimodel <mode>"; return 2
